@@ -1,11 +1,12 @@
 import StorageModel.Driver.Common
-import StorageModel.C03.Model
-import StorageModel.C03.Spec
+import StorageModel.C03.Layered
+import StorageModel.C03.LayeredSpec
 /- model driver for C03: `run spec` reads case lines on stdin and prints one output line per case
    (spec = false: the engine model's output; spec = true: the spec's verdict).
    Line protocol: see /verif/harness/c03.go. -/
 namespace StorageModel.Driver.C03
-open StorageModel StorageModel.Driver StorageModel.C03
+open StorageModel StorageModel.Driver StorageModel.C03.Layered
+open StorageModel.C03 (Map Id Ent Vals Err Line setOf)
 
 def hexB (b : Bytes) : String := Bytes.toWire b
 
@@ -18,21 +19,40 @@ def parseList (s : String) : Option (List Bytes) :=
 def parseOpt (s : String) : Option (Option Bytes) :=
   if s = "~" then some none else (Bytes.ofHex s).map some
 
-def parseChk (s : String) : Option Checker :=
-  if s = "*" then none
-  else some ⟨s.toList.contains 'n', s.toList.contains 'a', s.toList.contains 'r'⟩
-
-def parseOp (s : String) : Option Op :=
-  match s.splitOn ":" with
-  | ["c", id, n, a, r] => do
-    pure (.create (← Bytes.ofHex id) ⟨← Bytes.ofHex n, ← parseOpt a, ← parseList r⟩)
-  | ["u", id, n, a, r, c] => do
-    pure (.update (← Bytes.ofHex id) ⟨← Bytes.ofHex n, ← parseOpt a, ← parseList r⟩ (parseChk c))
-  | ["d", id] => do pure (.delete (← Bytes.ofHex id))
+/-- the schema: eleven names (name: sym key chk, alias: sym key chk, roles: sym key chk, tag: key chk) -/
+def parseSchema (s : String) : Option Schema :=
+  match parseList s with
+  | some [a, b, c, d, e, f, g, h, i, j, k] => some ⟨⟨a, b, c⟩, ⟨d, e, f⟩, ⟨g, h, i⟩, j, k⟩
   | _ => none
 
-def parseTxs (s : String) : Option (List (List Op)) :=
-  (s.splitOn "|").mapM fun t => (t.splitOn ",").mapM parseOp
+/-- a checker: `*` = nil; otherwise letters naming fields —
+    n a r t: the caller-side name of name / alias / roles / tag,
+    N A R T: the stored key, x y z: the symbol name; any other letter (`0`) names nothing -/
+def parseChk (sch : Schema) (s : String) : Option (List Bytes) :=
+  if s = "*" then none
+  else some (s.toList.filterMap fun c =>
+    match c with
+    | 'n' => some sch.name.chk | 'a' => some sch.alias.chk | 'r' => some sch.roles.chk | 't' => some sch.tagChk
+    | 'N' => some sch.name.key | 'A' => some sch.alias.key | 'R' => some sch.roles.key | 'T' => some sch.tagKey
+    | 'x' => some sch.name.sym | 'y' => some sch.alias.sym | 'z' => some sch.roles.sym
+    | _ => none)
+
+def parseOp (sch : Schema) (s : String) : Option Op :=
+  match s.splitOn ":" with
+  | ["c", id, n, a, r] => do
+    pure (.create .parent (← Bytes.ofHex id) ⟨← Bytes.ofHex n, ← parseOpt a, ← parseList r⟩ [])
+  | ["C", id, n, a, r, t] => do
+    pure (.create .child (← Bytes.ofHex id) ⟨← Bytes.ofHex n, ← parseOpt a, ← parseList r⟩ (← Bytes.ofHex t))
+  | ["u", id, n, a, r, c] => do
+    pure (.update .parent (← Bytes.ofHex id) ⟨← Bytes.ofHex n, ← parseOpt a, ← parseList r⟩ [] (parseChk sch c))
+  | ["U", id, n, a, r, t, c] => do
+    pure (.update .child (← Bytes.ofHex id) ⟨← Bytes.ofHex n, ← parseOpt a, ← parseList r⟩ (← Bytes.ofHex t) (parseChk sch c))
+  | ["d", id] => do pure (.delete .parent (← Bytes.ofHex id))
+  | ["D", id] => do pure (.delete .child (← Bytes.ofHex id))
+  | _ => none
+
+def parseTxs (sch : Schema) (s : String) : Option (List (List Op)) :=
+  (s.splitOn "|").mapM fun t => (t.splitOn ",").mapM (parseOp sch)
 
 def errName : Err → String
   | .dup => "dup" | .nullNotAllowed => "null" | .notFound => "notfound"
@@ -65,56 +85,65 @@ def logW (calls : List (Id × List Bytes × List Bytes)) : String :=
   else ",".intercalate (calls.map fun c => hexB c.1 ++ ":" ++ listW c.2.1 ++ ":" ++ listW c.2.2)
 
 /-- listener calls of a transaction body, including those of the failing operation -/
-def txLog : State → List Op → List (Id × List Bytes × List Bytes)
+def txLog (sch : Schema) : State → List Op → List (Id × List Bytes × List Bytes)
   | _, [] => []
   | s, op :: rest =>
-    listenerCalls s op ++ (match stepRaw s op with
-      | .ok s' => txLog s' rest
+    listenerCalls sch s op ++ (match stepRaw sch s op with
+      | .ok s' => txLog sch s' rest
       | .error _ => [])
 
-def resW (s : State) (ops : List Op) : String :=
-  match applyOps s ops 0 with
+def resW (sch : Schema) (s : State) (ops : List Op) : String :=
+  match applyOps sch s ops 0 with
   | .ok _ => "ok"
   | .error (i, e) => "err:" ++ errName e ++ "@" ++ toString i
 
-def runModel (vals : List Bytes) (txs : List (List Op)) : String :=
+def runModel (sch : Schema) (vals : List Bytes) (txs : List (List Op)) : String :=
   let rec go (s : State) (prev : String) (txs : List (List Op)) (acc : List String) : List String :=
     match txs with
     | [] => acc.reverse
     | ops :: rest =>
-      let s' := (txStep s ops).1
-      let dump := dumpW (Render s')
+      let s' := (txStep sch s ops).1
+      let dump := dumpW (Render sch s')
       let shown := if dump == prev then "=" else dump
-      let rec_ := resW s ops ++ "#" ++ shown ++ "#" ++ readsW vals s'.uName s'.uAlias s'.sRoles ++ "#" ++ logW (txLog s ops)
+      let rec_ := resW sch s ops ++ "#" ++ shown ++ "#" ++ readsW vals s'.base.uName s'.base.uAlias s'.base.sRoles ++ "#" ++
+        logW (txLog sch s ops)
       go s' dump rest (rec_ :: acc)
   "|".intercalate (go State.empty "" txs [])
 
 /-! spec side: the entity table alone; indexes, reads and dump are *derived* from it -/
 
-def specResW (t : Spec.SState) (ops : List Op) : String :=
-  match Spec.applyOps t ops 0 with
+def specResW (sch : Schema) (t : Spec.SState) (ops : List Op) : String :=
+  match Spec.applyOps sch t ops 0 with
   | .ok _ => "ok"
   | .error (i, es) => "err:" ++ "/".intercalate (es.map errName) ++ "@" ++ toString i
 
-def runSpec (vals : List Bytes) (txs : List (List Op)) : String :=
+def runSpec (sch : Schema) (vals : List Bytes) (txs : List (List Op)) : String :=
   let rec go (t : Spec.SState) (prev : String) (txs : List (List Op)) (acc : List String) : List String :=
     match txs with
     | [] => acc.reverse
     | ops :: rest =>
-      let t' := (Spec.txStep t ops).1
-      let dump := dumpW (Spec.render t')
+      let t' := (Spec.txStep sch t ops).1
+      let dump := dumpW (Spec.render sch t')
       let shown := if dump == prev then "=" else dump
-      let rec_ := specResW t ops ++ "#" ++ shown ++ "#" ++
-        readsW vals (Spec.nameIndex t'.ents) (Spec.aliasIndex t'.ents) (Spec.rolesIndex t'.ents) ++ "#-"
+      let rec_ := specResW sch t ops ++ "#" ++ shown ++ "#" ++
+        readsW vals (StorageModel.C03.Spec.nameIndex t'.base.ents) (StorageModel.C03.Spec.aliasIndex t'.base.ents)
+          (StorageModel.C03.Spec.rolesIndex t'.base.ents) ++ "#-"
       go t' dump rest (rec_ :: acc)
   "|".intercalate (go Spec.SState.empty "" txs [])
 
-def stepWith (f : List Bytes → List (List Op) → String) (line : String) : String :=
+def stepWith (f : Schema → List Bytes → List (List Op) → String) (line : String) : String :=
   match splitSp line with
   | ["h", vals, txs] =>
-    match parseList vals, parseTxs txs with
-    | some vs, some ts => f vs ts
+    match parseList vals, parseTxs Schema.plain txs with
+    | some vs, some ts => f Schema.plain vs ts
     | _, _ => "bad-case"
+  | ["h", vals, schema, txs] =>
+    match parseSchema schema with
+    | none => "bad-case"
+    | some sch =>
+      match parseList vals, parseTxs sch txs with
+      | some vs, some ts => f sch vs ts
+      | _, _ => "bad-case"
   | _ => "bad-case"
 
 def step (line : String) : String := stepWith runModel line
